@@ -449,7 +449,19 @@ func (c *ExecCtx) execGo(st *State, x *ast.GoStmt) {
 	call := x.Call
 	if lit, ok := ast.Unparen(call.Fun).(*ast.FuncLit); ok {
 		sig := c.typeOf(lit).(*types.Signature)
-		c.evalArgs(st, call, sig, nil)
+		args := c.evalArgs(st, call, sig, nil)
+		if spec := c.ownSpec(); spec != nil {
+			for _, g := range spec.Ghosts {
+				if g.Anchor == "go(func)" {
+					g.used = true
+					binds := map[string]Val{}
+					for i, a := range args {
+						binds[fmt.Sprintf("ʃarg%d", i)] = a
+					}
+					c.execGhostWith(st, g, x.Pos(), binds)
+				}
+			}
+		}
 		c.spawnLit(st, lit, "go", x.Pos())
 		return
 	}
